@@ -14,10 +14,10 @@ set_option linter.unusedVariables false
 namespace Rpft.Props.C11
 open Rpft Rpft.DataOps
 
-/-- T1: the operation names / order word / `is True` test of the model are those of the source -/
+/-- T1: the operation names / order word / `Operation` fields of the model are those of the source -/
 theorem tables_agree :
     Gen.dataOpTypeNames = opTypeNames ∧ Gen.dataOpSingleSource = singleSourceTypes ∧
-    Gen.dataOpDescending = descendingWord ∧ Gen.dataOpFilterTest = ("Is".toList, true) ∧
+    Gen.dataOpOrderWords = [descendingWord] ∧
     Gen.dataOpFields = ["type".toList, "expression".toList, "order".toList] := by decide
 
 /-- the dict invariant: every row ID appears once -/
